@@ -256,6 +256,7 @@ class ComplexWaveFunction(WaveFunctionBase):
 
     @staticmethod
     def autoload(location, gpu=False):
+        start = location.tell() if hasattr(location, "seek") else None
         state_dict = torch.load(location)
         wvfn = ComplexWaveFunction(
             unitary_dict=state_dict["unitary_dict"],
@@ -263,7 +264,7 @@ class ComplexWaveFunction(WaveFunctionBase):
             num_hidden=len(state_dict["rbm_am"]["hidden_bias"]),
             gpu=gpu,
         )
-        if hasattr(location, "seek"):
-            location.seek(0)  # an open file was read above; read it again from the start
+        if start is not None:
+            location.seek(start)  # an open file was read above; read it again from where that read began
         wvfn.load(location)
         return wvfn
